@@ -339,5 +339,211 @@ def main(argv):
     return 0
 
 
+
+# ============================================================================ ops (C04 C07 C08 C15)
+
+class Scripted(agent.CommunityAgent):
+    """community agent with a scripted deviation"""
+
+    def __init__(self, db, dev=None, **kw):
+        super().__init__(db, **kw)
+        self.dev = dev or {}
+
+    def handle_pdu(self, pdu, version):
+        node = super().handle_pdu(pdu, version)
+        vbl = node[2][3][2]
+        if self.dev.get("drop") and vbl:
+            vbl.pop()
+        if self.dev.get("add"):
+            vbl.append(("seq", ber.SEQ, [("oid", (1, 3, 99, 1)), ("int", ber.INT, 7)]))
+        if "status" in self.dev:
+            node[2][1] = ("int", ber.INT, self.dev["status"])
+            node[2][2] = ("int", ber.INT, self.dev.get("index", 0))
+        return node
+
+
+OPS_DB = [((1, 3, 1, 1, 0), ("int", ber.INT, 11)), ((1, 3, 1, 2, 0), ("bytes", ber.OCTETS, b"two")),
+          ((1, 3, 1, 3, 0), ("int", ber.TIMETICKS, 290)), ((1, 3, 1, 4, 0), ("bytes", ber.IPADDR, bytes([10, 0, 0, 1]))),
+          ((1, 3, 1, 5, 0), ("int", ber.COUNTER64, 2 ** 63)), ((1, 3, 1, 6, 0), ("oid", (1, 3, 6, 1))), ((1, 3, 1, 7, 0), ("null", ber.NULL))]
+
+
+def suite_ops(out, tier, seed, part=None):
+    from puresnmp.exc import ErrorResponse, InvalidResponseId
+    import puresnmp.exc as E
+    rnd = random.Random(seed)
+    present = [o for o, _ in OPS_DB]
+
+    def client(ag):
+        return Client("127.0.0.1", V2C("public"), sender=ag)
+
+    def attempt(coro):
+        try:
+            return run(coro), None
+        except Exception as e:  # noqa
+            return None, e
+    # ---- C04: results are the agent's answers, in order; count mismatches refused
+    if part in (None, "C04"):
+        for _ in range(60 if tier == "quick" else 600):
+            k = rnd.randint(1, 4)
+            oids = [rnd.choice(present + [(1, 3, 1, 9, 0), (1, 3, 2, 1)]) for _ in range(k)]
+            dev = rnd.choice([{}, {}, {"drop": 1}, {"add": 1}])
+            ag = Scripted(OPS_DB, dev)
+            out.case(("multiget", tuple(oids), tuple(dev)))
+            res, exc = attempt(client(ag).multiget([OID(otext(o)) for o in oids]))
+            if dev:
+                if not isinstance(exc, SnmpError):
+                    out.fail({"kind": "op", "op": "multiget", "oids": oids, "dev": dev}, repr(res or exc), "SnmpError (binding count differs)")
+            else:
+                want = [describe_node(ag.db.get(o) or (agent.NSI if any(x[:len(o) - 1] == tuple(o)[:len(o) - 1] for x in ag.db.oids) else agent.NSO)) for o in oids]
+                if exc is not None or [describe(v) for v in res] != want:
+                    out.fail({"kind": "op", "op": "multiget", "oids": oids}, repr(res or exc), want)
+            # getnext of each
+            o = rnd.choice(present + [(1, 3, 0), (1, 3, 1, 7, 0), (1, 3, 9)])
+            ag = Scripted(OPS_DB)
+            out.case(("getnext", o))
+            res, exc = attempt(client(ag).getnext(OID(otext(o))))
+            s = ag.db.succ(o)
+            if s is None:
+                if not isinstance(exc, NoSuchOID):
+                    out.fail({"kind": "op", "op": "getnext", "oid": o}, repr(res or exc), "NoSuchOID (end of the MIB view)")
+            elif exc is not None or tuple(res.oid.nodes) != s or describe(res.value) != describe_node(ag.db.get(s)):
+                out.fail({"kind": "op", "op": "getnext", "oid": o}, repr(res or exc), [s, describe_node(ag.db.get(s))])
+            # set
+            ag = Scripted(OPS_DB, rnd.choice([{}, {"add": 1}, {"drop": 1}]))
+            val = rnd.choice([Integer(rnd.randint(-5, 5)), OctetString(b"x" * rnd.randint(0, 3))])
+            out.case(("set", o, tuple(ag.dev)))
+            res, exc = attempt(client(ag).set(OID(otext(o)), val))
+            if ag.dev:
+                if not isinstance(exc, SnmpError):
+                    out.fail({"kind": "op", "op": "set", "oid": o, "dev": ag.dev}, repr(res or exc), "SnmpError")
+            elif exc is not None or describe(res) != describe(val):
+                out.fail({"kind": "op", "op": "set", "oid": o}, repr(res or exc), describe(val))
+    # ---- C07: request-id echo / perturbation with a stepping clock
+    if part in (None, "C07"):
+        import puresnmp.api.raw as raw
+        import puresnmp.util as util
+        tick = itertools.count(1000)
+        saved = raw.get_request_id
+        raw.get_request_id = lambda: next(tick)
+        try:
+            for op in ("get", "getnext", "set", "bulkget", "walk"):
+                for off in (0, 1, -1, 12345):
+                    ag = Scripted(OPS_DB, rid_offset=off)
+                    c = client(ag)
+                    out.case(("rid", op, off))
+                    o = OID("1.3.1.1.0")
+                    coro = {"get": lambda: c.get(o), "getnext": lambda: c.getnext(o), "set": lambda: c.set(o, Integer(1)),
+                            "bulkget": lambda: c.bulkget([], [o], 2), "walk": lambda: collect(c.walk(OID("1.3.1")))}[op]()
+                    res, exc = attempt(coro)
+                    if off == 0 and exc is not None:
+                        out.fail({"kind": "rid", "op": op, "offset": off}, repr(exc), "accepted (the agent echoed the id it was sent)")
+                    if off != 0 and not isinstance(exc, InvalidResponseId):
+                        out.fail({"kind": "rid", "op": op, "offset": off}, repr(res or exc), "InvalidResponseId")
+        finally:
+            raw.get_request_id = saved
+    # ---- C08: error-status x error-index
+    if part in (None, "C08"):
+        table = {getattr(E, n).IDENTIFIER: getattr(E, n) for n in dir(E) if isinstance(getattr(E, n), type)
+                 and issubclass(getattr(E, n), ErrorResponse) and getattr(E, n) is not ErrorResponse}
+        for status in list(range(1, 20)) + [255, 65536, -1, -128]:
+            for index in (0, 1, 2, 3, 7, -1):
+                for op in ("multiget", "multiset", "bulkget"):
+                    ag = Scripted(OPS_DB, {"status": status, "index": index})
+                    c = client(ag)
+                    oids = [(1, 3, 1, 1, 0), (1, 3, 1, 2, 0)]
+                    out.case(("err", status, index, op))
+                    coro = {"multiget": lambda: c.multiget([OID(otext(o)) for o in oids]),
+                            "multiset": lambda: c.multiset({OID(otext(o)): Integer(1) for o in oids}),
+                            "bulkget": lambda: c.bulkget([], [OID(otext(o)) for o in oids], 1)}[op]()
+                    res, exc = attempt(coro)
+                    want_cls = table.get(status, ErrorResponse)
+                    ok = type(exc) is want_cls and exc.error_status == status
+                    if ok:
+                        n = 2
+                        want_oid = otext(oids[index - 1]) if 1 <= index <= n and op != "bulkget" else None
+                        got_oid = str(exc.offending_oid) if exc.offending_oid else ""
+                        if op != "bulkget" and (got_oid or None) != want_oid:
+                            ok = False
+                    if not ok:
+                        out.fail({"kind": "err", "status": status, "index": index, "op": op}, repr(res or exc),
+                                 "%s with status %d" % (want_cls.__name__, status))
+    # ---- C15: pythonic wrapper
+    if part in (None, "C15"):
+        from datetime import timedelta
+        from ipaddress import IPv4Address
+        from puresnmp.util import BulkResult
+
+        def builtin(v):
+            if v is None or type(v) in (str, int, bytes, timedelta, IPv4Address, bool):
+                return True
+            if isinstance(v, (list, tuple)):
+                return all(builtin(x) for x in v)
+            if isinstance(v, dict):
+                return all(builtin(k) and builtin(x) for k, x in v.items())
+            if isinstance(v, BulkResult):
+                return builtin(v.scalars) and builtin(v.listing)
+            return False
+        ag = Scripted(OPS_DB)
+        w = PyWrapper(client(ag))
+        o = "1.3.1.1.0"
+        calls = {"get": lambda: w.get(o), "getnext": lambda: w.getnext(o), "multiget": lambda: w.multiget([o, "1.3.1.3.0", "1.3.1.4.0"]),
+                 "set": lambda: w.set(o, Integer(3)), "multiset": lambda: w.multiset({o: Integer(3)}),
+                 "walk": lambda: collect(w.walk("1.3.1")), "multiwalk": lambda: collect(w.multiwalk(["1.3.1"])),
+                 "bulkwalk": lambda: collect(w.bulkwalk(["1.3.1"], 3)), "bulkget": lambda: w.bulkget(["1.3.1.1"], ["1.3.1.2"], 3),
+                 "table": lambda: w.table("1.3.1"), "bulktable": lambda: w.bulktable("1.3")}
+        for name, mk in calls.items():
+            out.case(("py", name))
+            res, exc = attempt(mk())
+            if exc is not None or not builtin(res):
+                out.fail({"kind": "pythonic", "op": name}, repr(res or exc), "only built-in types (dictionary keys included)")
+
+
+async def collect(agen):
+    return [x async for x in agen]
+
+
+# ============================================================================ types (C17)
+
+def suite_types(out, tier, seed):
+    from datetime import timedelta
+    from ipaddress import IPv4Address
+    from puresnmp.types import Counter, Counter64, TimeTicks, IpAddress, Gauge
+    from x690 import decode
+    rnd = random.Random(seed)
+    for bits, cls in ((32, Counter), (64, Counter64)):
+        for v in [0, 1, -1, -2 ** 70, 2 ** bits - 1, 2 ** bits, 2 ** bits + 5, 2 ** (bits + 32) + 2 ** 32 + 5] + [rnd.randint(-2 ** 70, 2 ** 140) for _ in range(200)]:
+            out.case((cls.__name__, v))
+            want = 0 if v <= 0 else v % 2 ** bits
+            if cls(v).value != want:
+                out.fail({"kind": "counter", "cls": cls.__name__, "v": v}, cls(v).value, want)
+    n_dense = 20000 if tier == "quick" else 400000
+    for n in itertools.chain(range(n_dense), (rnd.randrange(2 ** 32) for _ in range(2000)), [2 ** 32 - 1]):
+        out.case(("ticks", n))
+        if TimeTicks(timedelta(microseconds=n * 10000)).value != n:
+            out.fail({"kind": "ticks-from-timedelta", "n": n}, TimeTicks(timedelta(microseconds=n * 10000)).value, n)
+            break
+        if TimeTicks(n).pythonize() != timedelta(microseconds=n * 10000):
+            out.fail({"kind": "ticks-to-timedelta", "n": n}, str(TimeTicks(n).pythonize()), str(timedelta(microseconds=n * 10000)))
+            break
+    for cls in (Counter, Gauge, TimeTicks, Counter64, Integer):
+        top = 2 ** 64 if cls is Counter64 else 2 ** 32
+        vals = [0, 1, 127, 128, 255, 256, 2 ** 31 - 1, 2 ** 31, top - 1] + ([-1, -128, -129, -2 ** 31] if cls is Integer else [])
+        for v in vals:
+            out.case(("roundtrip", cls.__name__, v))
+            back, _ = decode(bytes(cls(v)))
+            if type(back) is not cls or back.value != v:
+                out.fail({"kind": "roundtrip", "cls": cls.__name__, "v": v}, repr(back), v)
+    for ip in [0, 1, 2 ** 32 - 1, 0xC0000201] + [rnd.randrange(2 ** 32) for _ in range(300)]:
+        out.case(("ip", ip))
+        back, _ = decode(bytes(IpAddress(IPv4Address(ip))))
+        if back.value != IPv4Address(ip):
+            out.fail({"kind": "ip", "ip": ip}, str(back.value), str(IPv4Address(ip)))
+
+
+SUITES.update({"ops": suite_ops, "ops-C04": lambda o, t, s: suite_ops(o, t, s, "C04"), "ops-C07": lambda o, t, s: suite_ops(o, t, s, "C07"),
+               "ops-C08": lambda o, t, s: suite_ops(o, t, s, "C08"), "ops-C15": lambda o, t, s: suite_ops(o, t, s, "C15"),
+               "types": suite_types})
+
+
 if __name__ == "__main__":
     sys.exit(main(sys.argv[1:]))
